@@ -186,6 +186,12 @@ Alphabet ==
                   MChg("A", x, None, D1("db_index", TRUE), None),
                   MChg("A", x, None, D1("null", TRUE), None),
                   MChg("A", x, None, D1("max_length", 20), None),
+                  \* an initial value that the change has no use for (nothing is made non-null):
+                  \* it must not touch the rows
+                  MChg("A", x, None, D1("unique", TRUE), "i"),
+                  MChg("A", x, None, D1("unique", FALSE), "j"),
+                  MChg("A", x, None, D1("db_index", TRUE), "i"),
+                  MChg("A", x, None, D1("max_length", 20), "j"),
                   MAdd("A", x, "Int", D1("null", TRUE), None),
                   MAdd("A", x, "Int", D2("null", TRUE, "unique", TRUE), None),
                   MDel("A", x) } : x \in FieldNames }
